@@ -189,11 +189,15 @@ impl ClockShared {
 
 	#[must_use]
 	pub fn ticks(&self) -> u64 {
+		#[cfg(kira_verif)]
+		crate::verif::point("clock_load_ticks", self as *const Self as usize, 0);
 		self.ticks.load(Ordering::SeqCst)
 	}
 
 	#[must_use]
 	pub fn fractional_position(&self) -> f64 {
+		#[cfg(kira_verif)]
+		crate::verif::point("clock_load_fraction", self as *const Self as usize, 0);
 		f64::from_bits(self.fractional_position.load(Ordering::SeqCst))
 	}
 
@@ -301,7 +305,11 @@ impl Clock {
 				fractional_position,
 			} => (*ticks, *fractional_position),
 		};
+		#[cfg(kira_verif)]
+		crate::verif::point("clock_store_ticks", Arc::as_ptr(&self.shared) as usize, 0);
 		self.shared.ticks.store(ticks, Ordering::SeqCst);
+		#[cfg(kira_verif)]
+		crate::verif::point("clock_store_fraction", Arc::as_ptr(&self.shared) as usize, 0);
 		self.shared
 			.fractional_position
 			.store(fractional_position.to_bits(), Ordering::SeqCst);
